@@ -11,6 +11,7 @@ func FuzzMetadataDecode(f *testing.F) {
 	f.Add(ref.EncodeMetadataProto([]ref.Pair{{Key: "auth", Value: "tok"}, {Key: "", Value: ""}}))
 	f.Add([]byte{10, 0xff, 0xff, 0xff, 0xff, 0xff, 0xff, 0xff, 0xff, 0xff, 0x01, 10, 1, 'k', 18, 1, 'v'})
 	f.Add([]byte{10, 6, 10, 1, 'k', 18, 0x80, 0x01})
+	f.Add([]byte("\n\x0e\n\x80\x00\x12\x80\x80\x80\x80\x80\x80\x80\x80\x800")) // accepted by Decode (varint read modulo 2^64), not by protowire
 	f.Fuzz(func(t *testing.T, b []byte) {
 		r := runMetaDecode(decodeCase{"fuzz", b})
 		if r.Fail != "" {
